@@ -1,15 +1,44 @@
 #!/usr/bin/env python3
-"""Print the markdown table of DESIGN.md section 8 from seeded/*/meta.json."""
-import glob, json, os, re
-rows = []
-for p in sorted(glob.glob(os.path.join(os.path.dirname(__file__), "..", "seeded", "*", "meta.json"))):
+"""Print the markdown table of DESIGN.md section 8 from seeded/*/meta.json (and per-round statistics with --stats)."""
+import glob, json, os, re, sys
+HERE = os.path.dirname(os.path.abspath(__file__))
+status = json.load(open(os.path.join(HERE, "seeded_status.json")))
+missed = set(status["missed_then_strengthened"])
+ROUND = {"a": 1, "b": 1, "c": 2, "d": 2, "e": 3, "f": 3, "g": 4, "h": 4, "i": 5, "j": 5, "k": 6, "l": 6}
+rows, per_round = [], {}
+for p in sorted(glob.glob(os.path.join(HERE, "..", "seeded", "*", "meta.json"))):
     m = json.load(open(p))
+    key = f"{m['property']}-{m['name']}"
     notes = m.get("needs_to_manifest", "")
-    first = next((l.strip("# ").strip() for l in notes.splitlines() if l.strip()), "")
-    clauses = sorted(set(re.findall(r"clause=(\S+)", m.get("checks_against_change", ""))))
-    rows.append((f"{m['property']}-{m['name']}", first[:150], ", ".join(clauses) or "—", m.get("first_round_status", ""),
-                 m.get("repo_test_suite_with_change", "")[:40]))
-print("| id | change (first line of the author's notes) | clause(s) that fire in the quick tier | status when first run | suite with change |")
-print("|---|---|---|---|---|")
-for r in rows:
-    print("| " + " | ".join(r) + " |")
+    first = next((l.strip("# *").strip() for l in notes.splitlines() if l.strip()), "")
+    first = re.sub(r"^C\d\d\s*/\s*(change\s*)?[a-z]\s*[-:–—]+\s*", "", first)
+    caught = []
+    for part in m.get("checks_against_change", "").split(";;"):
+        part = part.strip()
+        if not part or "VIOLATION" not in part:
+            continue
+        chk = part.split(":", 1)[0].strip()
+        cl = sorted(set(re.findall(r"clause=(\S+)", part)))
+        caught.append(f"{chk}: {', '.join(cl)}" if cl else chk)
+    r = ROUND.get(m["name"], 0)
+    st = per_round.setdefault(r, {"n": 0, "missed_first": 0, "detected_now": 0, "suite_ok": 0})
+    st["n"] += 1
+    st["missed_first"] += key in missed
+    st["detected_now"] += bool(caught)
+    suite = m.get("repo_test_suite_with_change", "")
+    st["suite_ok"] += (" passed" in suite and "failed" not in suite)
+    rows.append((key, str(r), first[:140].replace("|", "/"), "; ".join(caught).replace("|", "/") or "**not detected**",
+                 "missed, then strengthened" if key in missed else "detected",
+                 re.sub(r" in [\d.]+s.*", "", suite)[:34]))
+if "--stats" in sys.argv:
+    print("| round | changes | missed at first run (own-property check as it then was) | detected by the final checks | "
+          "repository suite passes with the change |")
+    print("|---|---|---|---|---|")
+    for r in sorted(per_round):
+        s = per_round[r]
+        print(f"| {r} | {s['n']} | {s['missed_first']} | {s['detected_now']} | {s['suite_ok']} |")
+else:
+    print("| id | round | change (first line of the author's notes) | check: clause(s) that fire (quick tier) | first run | suite with change |")
+    print("|---|---|---|---|---|---|")
+    for r in rows:
+        print("| " + " | ".join(r) + " |")
